@@ -871,8 +871,10 @@ def _dipole_vector(grid, points, decimals=9, nodes=None):
         """Return [min, max]-index of cells in which points resides."""
         vmin = min(points[:, i])
         vmax = max(points[:, i])
-        return [max(0, np.where(vmin < np.r_[vector, np.inf])[0][0]-1),
-                max(0, np.where(vmax < np.r_[vector, np.inf])[0][0]-1)]
+        imin = max(0, np.where(vmin < np.r_[vector, np.inf])[0][0]-1)
+        imax = max(0, np.where(vmax < np.r_[vector, np.inf])[0][0]-1)
+        # (Points on the last node belong to the last cell.)
+        return [min(vector.size-2, imin), min(vector.size-2, imax)]
 
     rix = min_max_ind(nodes_x, 0)
     riy = min_max_ind(nodes_y, 1)
